@@ -33,6 +33,10 @@ EffSkipConv(w) == Effective(<<>>, SkipLines(w.pc), <<>>, "skip")
 EffSkipMeth(w, pl) == Effective(<<>>, SkipLines(w.pc), SkipLines(pl), "skip")
 AliasI(w, pl) == EffSkipMeth(w, pl) \/ EffSkipConv(w)
 AliasC(w) == EffSkipConv(w)
+\* kind "skipdecl": skipCopySameType (absent / yes) on M1(S8) T8, whose structs have a field I of the same named struct type In8{A, B};
+\* the converter also *declares* M2(In8) In8 with `ignore B`.  C06: a declared method is used for its pair wherever the pair occurs --
+\* skipCopySameType on the caller does not bypass it, so B of M1's result is 0 (ignored), not the source's 6
+WProgsD == {[kind |-> "skipdecl", pc |-> "absent", p1 |-> b, p2 |-> "absent"] : b \in {"absent", "yes"}}
 \* kind "enumoff": `enum` (absent / yes / no) on the converter and on two declared methods Mk(SEk) TEk whose structs have a field of the
 \* enum types Col (Red = 1, Green = 2) -> Col2 (Green = 1, Red = 2).  With enum handling in effect for the method the field is an enum
 \* pair and is converted by a generated helper, which follows the converter's value; otherwise it is a cast of the number.
